@@ -340,7 +340,7 @@ Qed.
 Lemma p_he_ep_poll c s desc : p_inv c true s -> p_he s -> p_he (p_ep_poll c s desc).
 Proof.
   intros I H. unfold p_ep_poll.
-  destruct (p_ep_ready c s (if desc then rev (seq 0 (length c)) else seq 0 (length c))); [exact H|].
+  destruct (p_ep_batch c s (if desc then rev (seq 0 (length c)) else seq 0 (length c))); [exact H|].
   assert (X : forall l s0, p_inv c true s0 -> p_he s0 -> p_he (fold_left (p_ep_check c) l s0)).
   { induction l0; simpl; intros; auto. apply IHl0. apply p_inv_ep_check; auto. apply p_he_ep_check; auto. }
   specialize (X (p :: l) s I H). destruct X as (B & Z & D). repeat split; auto.
